@@ -67,10 +67,10 @@ func gen(t *rapid.T) Case {
 	}
 	n := rapid.IntRange(1, maxOps).Draw(t, "nOps")
 	for i := 0; i < n; i++ {
-		k := rapid.SampledFrom([]string{"open", "open", "open", "write", "write", "close", "close", "update", "rename", "removeOld", "removeAll", "age"}).Draw(t, "kind")
+		k := rapid.SampledFrom([]string{"open", "open", "open", "write", "write", "close", "close", "update", "rename", "removeOld", "removeAll", "age", "openEmpty"}).Draw(t, "kind")
 		c.Ops = append(c.Ops, Op{
 			Kind: k, Dag: rapid.IntRange(0, nd-1).Draw(t, "dag"), Run: rapid.IntRange(0, 5).Draw(t, "run"),
-			TimeSel: rapid.IntRange(0, 5).Draw(t, "timeSel"), MS: rapid.IntRange(0, 999).Draw(t, "ms"),
+			TimeSel: rapid.SampledFrom([]int{0, 1, 2, 3, 4, 5, 0, 1, 2, 3, 4, 5, 6}).Draw(t, "timeSel"), MS: rapid.IntRange(0, 999).Draw(t, "ms"),
 			Payload: rapid.IntRange(0, 7).Draw(t, "payload"), Days: rapid.IntRange(0, 4).Draw(t, "days"),
 			AgeH: rapid.SampledFrom([]int{2, 12, 22, 26, 47, 50, 71, 74, 100}).Draw(t, "ageH"),
 			To:   rapid.IntRange(0, len(renamePool)-1).Draw(t, "to"),
@@ -152,6 +152,8 @@ func (w *world) startTime(o Op) time.Time {
 		t = midnight.Add(ms)
 	case 4: // days apart
 		t = w.now.AddDate(0, 0, -1-o.MS%5).Add(-ms)
+	case 6: // dated tomorrow (a run started by a host whose clock is ahead)
+		return midnight.Add(24*time.Hour + time.Duration(o.MS%3)*time.Hour).Add(ms).Truncate(time.Millisecond)
 	default: // a fixed same-second cluster a few hours ago
 		t = w.now.Truncate(time.Hour).Add(-3 * time.Hour).Add(ms)
 	}
@@ -193,12 +195,29 @@ func (w *world) apply(o Op, labels map[string]bool) *failure {
 		if err := db.Write(p); err != nil {
 			return fail("first Write failed: %v", err)
 		}
+		if o.TimeSel == 6 {
+			labels["future-dated-run(clock skew)"] = true
+		}
 		for _, r := range runs {
 			if d := r.start.Sub(st); d > -time.Second && d < time.Second {
 				labels["runs-within-one-second"] = true
 			}
 		}
 		w.runs[d] = append(runs, &mrun{req: req, start: st, last: js(p), open: true, w: db, mtime: w.now, nwrite: 1})
+	case "openEmpty":
+		// a run file that never received a status (opened and closed without a
+		// write): it records nothing and must not hide what was recorded.
+		if len(openRuns) > 0 {
+			return nil
+		}
+		w.seq++
+		req := fmt.Sprintf("%08x-req-%d", 0x1000+w.seq*7919, w.seq)
+		db := jsondb.New(w.data, w.latest)
+		if err := db.Open(w.loc(d), w.startTime(o), req); err != nil {
+			return fail("Open(%q) failed: %v", w.loc(d), err)
+		}
+		_ = db.Close() // compaction of an empty file may report an error; nothing was recorded
+		labels["run-file-without-status"] = true
 	case "write":
 		if len(openRuns) == 0 {
 			return nil
